@@ -280,6 +280,19 @@ def run_unit(unit, workdir, tier):
     gen_dir = os.path.join(VERIF, 'build')
     os.makedirs(gen_dir, exist_ok=True)
     shutil.copy(p, os.path.join(gen_dir, unit + '.rs'))
+    # verdict cache: keyed by the generated text (always rebuilt from /repo first), so a hit means the very same
+    # obligations were already decided for this tree state.  Optimisation only; VERIF_NO_CACHE=1 disables it.
+    ckey = hashlib.sha256((G.text + '\0' + GR.text + '\0verus-0.2026.09.13\0' + tier).encode()).hexdigest()
+    cpath = os.path.join(VERIF, '.cache', 'units', ckey + '.json')
+    if os.environ.get('VERIF_NO_CACHE') != '1' and os.path.exists(cpath):
+        try:
+            with open(cpath) as f:
+                cached = json.load(f)
+            cached.update(G=G, cache_hit=True)
+            cached['verus']['wall_cached'] = cached['verus'].get('wall')
+            return cached
+        except (OSError, ValueError, KeyError):
+            pass
     rlimit = 60 if tier == 'thorough' else 30
     try:
         with open(os.path.join(udir, 'unit.json')) as f:
@@ -326,9 +339,17 @@ def run_unit(unit, workdir, tier):
                 times[fb['function'].split('::')[-1]] = times.get(fb['function'].split('::')[-1], 0) + fb['time']
     except (KeyError, TypeError):
         pass
-    out.update(G=G, failed=c['failed'], obligations=obs, trusted=trusted, verus=res, times=times,
+    out.update(G=G, failed=c['failed'], obligations=obs, trusted=trusted, verus=dict(wall=res['wall'], cmd=res['cmd']), times=times,
                reach_count=len([1 for (_, _, t) in GR.tags if 'reach' in t]), smt_ms=_smt_total(res),
-               verified=c['verified'], sha=hashlib.sha256(G.text.encode()).hexdigest())
+               verified=c['verified'], sha=hashlib.sha256(G.text.encode()).hexdigest(), cache_hit=False)
+    try:
+        os.makedirs(os.path.dirname(cpath), exist_ok=True)
+        tmp = cpath + '.%d.tmp' % os.getpid()
+        with open(tmp, 'w') as f:
+            json.dump(dict((k, v) for k, v in out.items() if k != 'G'), f)
+        os.replace(tmp, cpath)
+    except OSError:
+        pass
     return out
 
 
@@ -473,7 +494,7 @@ def write_evidence(pid, pc, tier, seed, results, extra, total_obs, violations, k
         rewrites += [dict(x, unit=r['unit']) for x in G.log]
         trusted |= set('%s: %s' % (r['unit'], t) for t in r['trusted'])
         backends.append(dict(unit=r['unit'], backend='verus 0.2026.09.13 / z3', wall_s=round(r['verus']['wall'], 2),
-                             smt_ms=r['smt_ms'], verified_items=r['verified'], generated_sha256=r['sha'],
+                             smt_ms=r['smt_ms'], verified_items=r['verified'], generated_sha256=r['sha'], cache_hit=r.get('cache_hit', False),
                              vacuity_sentinels=r['reach_count']))
         cmds.append(r['verus']['cmd'].replace(os.path.dirname(r['verus']['cmd'].split()[1]), '<scratch>'))
     bounded = []
